@@ -74,6 +74,10 @@ class GameIO:
         """'' if a generated document lies in the reader property's dialect (guards the shrinker)."""
         return ""
 
+    def tag_write_failure(self, a, layout=None) -> str:
+        """a tag for the message of a failed write oracle when the object at hand has the feature of a listed finding"""
+        return ""
+
     def valid_pipeline_doc(self, doc, c) -> str:
         """'' if a C09 source document still satisfies the constraints its generator enforced
         (key count the target supports, tempo changes on measure lines, grid positions): guards the shrinker."""
@@ -375,7 +379,7 @@ class IoWrite(OpSpec):
 
             if not isinstance(e, RefError):
                 raise
-            out.fail(prop, inv, f"the written {op['game']} file is not well-formed: {e}")
+            out.fail(prop, inv, g.tag_write_failure(a, layout) + f"the written {op['game']} file is not well-formed: {e}")
             fs.lineage.pop(path, None)
             return out
         if not c09:
